@@ -241,6 +241,8 @@ class Keys:
         self.add("kd_es384", ec.generate_private_key(ec.SECP384R1()), "ec", 384, der=True)
         self.add("kd_es521", ec.generate_private_key(ec.SECP521R1()), "ec", 521, der=True)
         self.add("kd_ed", ed25519.Ed25519PrivateKey.generate(), "ed25519", 0, der=True)
+        self.add("solo.v1", ed25519.Ed25519PrivateKey.generate(), "ed25519", 0)          # a dotted name with NO file named after its stem
+        self.add("solo.es.v1", ec.generate_private_key(ec.SECP256R1()), "ec", 256)
         self.add("k_k1", ec.generate_private_key(ec.SECP256K1()), "other", 0)              # 256 bits, not P-256
         self.add("k_bp256", ec.generate_private_key(ec.BrainpoolP256R1()), "other", 0)
         self.add("k_bp384", ec.generate_private_key(ec.BrainpoolP384R1()), "other", 0)
